@@ -244,7 +244,7 @@ pub fn set_ctx_probes(s: &St, actors: &[u8], universe: &[u8]) -> Vec<CtxProbe> {
                 (*a, (ac.dot.actor, ac.dot.counter), vclock_to(&ac.clock))
             })
             .collect();
-        v.push(CtxProbe { entry: "read".into(), elem: None, add_clock: vclock_to(&r.add_clock), rm_clock: vclock_to(&r.rm_clock), derived: d, derived_rm: vclock_to(&s.read().derive_rm_ctx().clock) });
+        v.push(CtxProbe { entry: "read".into(), elem: None, add_clock: vclock_to(&r.add_clock), rm_clock: vclock_to(&r.rm_clock), derived: d, derived_rm: vclock_to(&s.read().derive_rm_ctx().clock), note: None });
     }
     {
         let r = s.read_ctx();
@@ -255,7 +255,7 @@ pub fn set_ctx_probes(s: &St, actors: &[u8], universe: &[u8]) -> Vec<CtxProbe> {
                 (*a, (ac.dot.actor, ac.dot.counter), vclock_to(&ac.clock))
             })
             .collect();
-        v.push(CtxProbe { entry: "read_ctx".into(), elem: None, add_clock: vclock_to(&r.add_clock), rm_clock: vclock_to(&r.rm_clock), derived: d, derived_rm: vclock_to(&s.read_ctx().derive_rm_ctx().clock) });
+        v.push(CtxProbe { entry: "read_ctx".into(), elem: None, add_clock: vclock_to(&r.add_clock), rm_clock: vclock_to(&r.rm_clock), derived: d, derived_rm: vclock_to(&s.read_ctx().derive_rm_ctx().clock), note: None });
     }
     for m in universe.iter().copied() {
         let r = s.contains(&m);
@@ -266,11 +266,16 @@ pub fn set_ctx_probes(s: &St, actors: &[u8], universe: &[u8]) -> Vec<CtxProbe> {
                 (*a, (ac.dot.actor, ac.dot.counter), vclock_to(&ac.clock))
             })
             .collect();
-        v.push(CtxProbe { entry: format!("contains({m})"), elem: Some(format!("member:{m}")), add_clock: vclock_to(&r.add_clock), rm_clock: vclock_to(&r.rm_clock), derived: d, derived_rm: vclock_to(&s.contains(&m).derive_rm_ctx().clock) });
+        v.push(CtxProbe { entry: format!("contains({m})"), elem: Some(format!("member:{m}")), add_clock: vclock_to(&r.add_clock), rm_clock: vclock_to(&r.rm_clock), derived: d, derived_rm: vclock_to(&s.contains(&m).derive_rm_ctx().clock), note: None });
     }
     for e in s.iter() {
         let m = *e.val;
-        v.push(CtxProbe { entry: format!("iter()[{m}]"), elem: Some(format!("member:{m}")), add_clock: vclock_to(&e.add_clock), rm_clock: vclock_to(&e.rm_clock), derived: derive(&e.add_clock), derived_rm: vclock_to(&e.rm_clock) });
+        v.push(CtxProbe { entry: format!("iter()[{m}]"), elem: Some(format!("member:{m}")), add_clock: vclock_to(&e.add_clock), rm_clock: vclock_to(&e.rm_clock), derived: derive(&e.add_clock), derived_rm: vclock_to(&e.rm_clock), note: None });
+    }
+    v.push(split_probe("read", None, &|| s.read(), actors));
+    v.push(split_probe("read_ctx", None, &|| s.read_ctx(), actors));
+    for m in universe.iter().copied() {
+        v.push(split_probe(&format!("contains({m})"), Some(format!("member:{m}")), &|| s.contains(&m), actors));
     }
     v
 }
